@@ -189,7 +189,9 @@ class ADict:
         self.doms = list(doms)
 
     def key(self):
-        return ("dict", tuple(sorted(((k, vkey(v[1])) for k, v in self.items.items()), key=_k)), tuple(self.doms))
+        # as for lists, the domains are bookkeeping: a mapping filled by a loop and one written as a comprehension
+        # over the same pseudo-elements are the same mapping
+        return ("dict", tuple(sorted(((k, vkey(v[1])) for k, v in self.items.items()), key=_k)), ())
 
 
 def vkey(v):
@@ -994,6 +996,10 @@ class Frame:
             return [ATuple([Poly.atom(("idx", a[2][0], i)), Poly.atom(("elem", a[2][0], i))]) for i in range(K_ELEMS)]
         if a is not None and a[0] == "mcall" and a[1] == "items":
             return [ATuple([Poly.atom(("elemk", a[2], i)), Poly.atom(("elemv", a[2], i))]) for i in range(K_ELEMS)]
+        if a is not None and a[0] == "mcall" and a[1] == "keys" and not a[3] and not a[4]:
+            return [Poly.atom(("elem", a[2], i)) for i in range(K_ELEMS)]  # `for k in d.keys()` is `for k in d`
+        if a is not None and a[0] == "mcall" and a[1] == "values" and not a[3] and not a[4]:
+            return [Poly.atom(("elemv", a[2], i)) for i in range(K_ELEMS)]
         dk = t.key()
         return [Poly.atom(("elem", dk, i)) for i in range(K_ELEMS)]
 
@@ -1506,6 +1512,32 @@ class Frame:
             self.I.events.append(Event("store_content", [out, res], {}, st.guards, node))
             return res
         # builtins with abstract semantics
+        if dotted == "dict" and len(args) == 1 and not kwargs and isinstance(args[0], Poly):
+            za = args[0].as_atom()
+            if za is not None and za[0] == "call" and za[1] == "zip" and len(za[2]) == 2 and not za[3]:
+                # dict(zip(keys, values)) over pseudo-elements is the mapping {key_i: value_i}
+                def seq(k):
+                    if isinstance(k, tuple) and k and k[0] == "list":
+                        return [poly_from_key(x) if _is_polykey(x) else Poly.atom(x) for x in k[1]]
+                    if _is_polykey(k):
+                        return self.domain_elements(poly_from_key(k), node)
+                    return None
+                ks, vs = seq(za[2][0]), seq(za[2][1])
+                def same_dom():
+                    # only the indexing idiom dict(zip([f(x) for x in D], D)): value i is the i-th pseudo-element of
+                    # D and key i is computed from it
+                    for kk, vv in zip(ks, vs):
+                        va = vv.as_atom() if isinstance(vv, Poly) else None
+                        if va is None or va[0] != "elem" or len(va) != 3:
+                            return False
+                        if repr(va) not in repr(vkey(kk)):
+                            return False
+                    return True
+                if ks is not None and vs is not None and len(ks) == len(vs) and 0 < len(ks) <= 16 and same_dom():
+                    d = ADict()
+                    for kk, vv in zip(ks, vs):
+                        d.items[vkey(kk)] = (kk, vv)
+                    return d
         if dotted == "len" and len(args) == 1:
             v = args[0]
             if isinstance(v, (AList, ATuple)) and not getattr(v, "doms", None):
@@ -2062,12 +2094,21 @@ class Valuation:
                 ka = key_atom(k)
                 if ka is not None and ka[0] == "call" and ka[1] in ("set", "frozenset") and not ka[3]:
                     return self.image(ka)  # a set wrapped as a term: its structural image (order / spelling free)
+                if ka is not None and ka[0] == "cond":
+                    # a conditional value denotes, in this scenario, the alternative whose guard holds
+                    for g, v in ka[1]:
+                        if self.truth(g):
+                            return self.image(v)
+                if ka is not None and ka[0] in ("cmp", "not", "and", "or", "truth"):
+                    return 1.0 if self.truth(ka) else 0.0
                 return _round(self.poly(k))
             if k and isinstance(k[0], str):
+                if k[0] == "const" and len(k) == 2 and k[1] in ("True", "False"):
+                    return 1.0 if k[1] == "True" else 0.0  # the literal and the value of a test with this truth are one value
                 if k[0] in ("const", "g", "fstr", "lambda", "localdef", "super", "absent", "raise", "undef"):
                     return k
                 if k[0] in ("cmp", "not", "and", "or", "truth"):
-                    return self.truth(k)
+                    return 1.0 if self.truth(k) else 0.0
                 if k[0] == "list":
                     return ("list", tuple(self.image(x) for x in k[1] if not self.is_absent_key(x)))
                 if k[0] == "call" and k[1] in ("set", "frozenset") and not k[3]:
@@ -2139,6 +2180,12 @@ class Valuation:
                 return float("-inf")
         if a in self.cache:
             return self.cache[a]
+        # graph library synonyms: the in/out-degree of a node is the number of its predecessors / successors
+        if t == "mcall" and a[1] in ("in_degree", "out_degree") and len(a[3]) == 1 and not a[4]:
+            other = ("mcall", "predecessors" if a[1] == "in_degree" else "successors", a[2], a[3], ())
+            r = self.atom(("call", "len", (Poly.atom(other).key(),), ()))
+            self.cache[a] = r
+            return r
         # one mapping, two ways to walk it: `for k in d: d[k]` and `for k, v in d.items()` name the same key and value
         if t == "elemk" and len(a) == 3:
             a2 = ("elem", a[1], a[2])
